@@ -121,7 +121,11 @@ def run(ctx):
         # inverse direction on implementation-made tables
         wf = [s for s in strs + rnd if gs.is_wf(s)]
         tabs = [t for t in run_impl([("make_pair_table", [list(s), "+", ["."]]) for s in wf]) if not isinstance(t, Err)]
-        diffs += correspond(ctx, "pair_table_to_dot_bracket", inverse_requests(ctx, tabs))
+        inv_ = inverse_requests(ctx, tabs)
+        diffs += correspond(ctx, "pair_table_to_dot_bracket", inv_)
+        sub_ = inv_[: (1500 if ctx.tier == "quick" else 20000)]
+        diffs += correspond(ctx, "pair_table_to_dot_bracket/one-shot-iterator", sub_,
+                            impl_reqs=[("pair_table_to_dot_bracket_iter", r[1]) for r in sub_])
     ctx.cov["rule"] = ("every string over '().+x' up to the tier's length bound, random long/deep/many-stranded "
                        "structures and single-fault mutations of them, other break/ignore characters; "
                        "non-trivial = distinct results on which model and implementation agree")
@@ -161,6 +165,14 @@ def run(ctx):
                 stf.append({"key": {"strand_table": d[1][1]}, "input": {"strand_table": [d[1][0], d[1][1]]},
                             "what": f"{d[1][0]}({seq!r}, strand_break={brk!r}) = {r!r}: not the sequence cut at every element equal to the break marker",
                             "snippet": f"from dsdobjects.complex_utils import make_strand_table; make_strand_table({seq!r}, strand_break={brk!r})"})
+        # a pair table handed over as a one-shot iterator of rows must give what the list gives
+        for d in [x for x in diffs if x[1][0] == "pair_table_to_dot_bracket_iter"][:10]:
+            a_, b_ = run_impl([("pair_table_to_dot_bracket", d[1][1]), ("pair_table_to_dot_bracket_iter", d[1][1])], jobs=1)
+            if a_ != b_:
+                stf.append({"key": {"iter_table": d[1][1]}, "input": {"iter_table": d[1][1]},
+                            "what": f"pair_table_to_dot_bracket gives {b_!r} for an iterator over the rows and {a_!r} for the list of rows",
+                            "snippet": f"from dsdobjects.complex_utils import pair_table_to_dot_bracket as f; t = {d[1][1][0]!r}; "
+                                       "print(f(t), f(iter(t)))"})
         pre = pre + stf
         # then the small-scope enumerator and the random stream against the oracle
         cases += [{"s": s, "brk": "+"} for s in strs] + [{"s": s, "brk": "+"} for s in rnd[:2000]]
@@ -180,6 +192,10 @@ def replay(data):
     if not inp:
         print("replay file names a broken proof/correspondence link only:", json.dumps(data.get("broken_links"))[:2000])
         return 1
+    if isinstance(inp, dict) and "iter_table" in inp:
+        a_, b_ = run_impl([("pair_table_to_dot_bracket", inp["iter_table"]), ("pair_table_to_dot_bracket_iter", inp["iter_table"])], jobs=1)
+        print(a_, b_)
+        return 1 if a_ != b_ else 0
     if isinstance(inp, dict) and "strand_table" in inp:
         op_, (seq, brk) = inp["strand_table"]
         r = run_impl([(op_, [seq, brk])], jobs=1)[0]
